@@ -204,11 +204,13 @@ func TestC03(t *testing.T) {
 		}
 		run.Exhaustive("body lengths 0..N, both directions", n)
 	})
-	rapid.Check(t, func(t *rapid.T) {
-		c := gen(t)
-		record(c)
-		if err := oracle(c); err != nil {
-			hx.Fail(t, run, c, err)
-		}
+	t.Run("generated", func(t *testing.T) {
+		rapid.Check(t, func(t *rapid.T) {
+			c := gen(t)
+			record(c)
+			if err := oracle(c); err != nil {
+				hx.Fail(t, run, c, err)
+			}
+		})
 	})
 }
